@@ -10,6 +10,7 @@ META = {
     "level": "Decides the structural clauses: sections are visited breadth-first starting from the section itself; per key the candidates are kept in visiting order and the first one defining the key wins; for one name the newest config source's section is used, a self-inherit continues with the older ones; a repeated name is a recursion error, an unknown name a missing-target error, a self-inherit without an older definition an error; the bookkeeping keys (inherit, inherit-only, class, default) are not passed on as settings. Two FIFO shapes are accepted (appending to the list being iterated; deque.popleft loop); LIFO operations on the worklist are violations, any other shape is an analysis error, not a verdict. Does NOT decide values on concrete inheritance graphs.",
     "note": "first written as not-applicable (DESIGN §6) for fear of a brittle shape proxy; the property itself prescribes breadth-first order, so FIFO discipline is a necessary condition, and both usual FIFO idioms are accepted",
 }
+META["technique"] += "; " + 'generic pack G on the anchored files (optional-flag shift, closures outliving a loop iteration, single-pass iterables consumed twice, %-templates built from data, in-place writes to class-level / memoised objects, generators mutating what they yielded, memo keys that are projections)'
 MOD = "pkgcore.config.central"
 
 
